@@ -20,7 +20,7 @@ PMIN = 1e-10   # per-test false-alarm bound of the exact Poisson test
 
 
 def n_cases(tier):
-    return 1100 if tier == "quick" else 30000
+    return 900 if tier == "quick" else 30000
 
 
 def timeout(tier):
